@@ -205,6 +205,7 @@ class Session(object):
             self.tf = H.TdmsFile.open(self.stream)
         self.ch = {'a': self.tf['g']['a'], 'b': self.tf['g']['b']}
         self.gens = {'g': [], 'f': []}   # [generator, progress, exhausted, which]
+        self.kept = []                   # (kind, chunk object, array handed out, normal form at delivery)
 
     def enabled(self, op):
         if op[0] == 'newgen':
@@ -242,7 +243,10 @@ class Session(object):
                     x = next(g[0])
                 except StopIteration:
                     return ('stop',)
-                return norm_chunk(x) if op[1] == 'g' else norm_file_chunk(x)
+                n_ = norm_chunk(x) if op[1] == 'g' else norm_file_chunk(x)
+                # the caller keeps what it was given (chunk object, and for channel chunks the array) while reading on
+                self.kept.append((op[1], x, x[:] if op[1] == 'g' else None, n_))
+                return n_
             r = H.guarded(step)
             if r[0] == 'ok':
                 if r[1] == ('stop',):
@@ -349,6 +353,13 @@ def run_history(name, seed, ops, want_key=False):
                     got = s.do(['next', kind, gi])
                     if got != exp:
                         return ('drain', len(ops), exp, got, kind, gi), key, len(ops)
+        # chunks delivered earlier (and the arrays they handed out) must still be what they were when they were delivered
+        for kind, obj, arr, n0 in s.kept:
+            again = H.guarded(lambda: norm_chunk(obj) if kind == 'g' else norm_file_chunk(obj))
+            if again != ('ok', n0):
+                return ('kept', len(ops), n0, again, kind, 0), key, len(ops)
+            if arr is not None and H.norm_array(arr) != n0[2]:
+                return ('kept', len(ops), n0, ('array handed out earlier now reads', H.norm_array(arr)), kind, 0), key, len(ops)
         return None, key, len(ops)
     finally:
         s.close()
@@ -362,6 +373,8 @@ def mkviolation(name, seed, ops, v):
     short = lambda x: repr(x)[:300]
     if v[0] == 'step':
         where = 'operation %d %r' % (v[1], ops[v[1]])
+    elif v[0] == 'kept':
+        where = 'a chunk delivered earlier, looked at again after the history'
     else:
         where = 'draining generator %s%d after the history' % (v[4], v[5])
     return {'case': {'file': name, 'seed': seed, 'ops': ops}, 'expected': '%s: %s' % (where, short(v[2])),
